@@ -3,6 +3,7 @@ import os
 import astload
 from core import Fn, Target, VC
 import hooks
+import nvwp
 from cxx2c import unwrap, strip_cv, qual
 
 H = 'specs/C04/program.h'
@@ -119,6 +120,53 @@ COMMON = dict(types=TYPES, calls=CALLS, members=MEMBERS, hooks=HOOKS)
 TU = 'src/program/solver.cpp'
 
 
+def smax_real_vcs():
+    """::make_smax over the reals (back end B): for u > 0 componentwise the result lies in (0, 1] and keeps u + s * du >= 0 at every
+    (ghost) index; every coefficient read is in bounds; the loop terminates.  IEEE double is treated as a real here."""
+    from nvwp import V
+    from wplib import IdEnvWP, load, reach_vc
+    docs, fn = load(TU, 'make_smax', 'make_smax', None)
+
+    def vec(node):
+        u = unwrap(node)
+        if u.get('kind') != 'DeclRefExpr' or u['referencedDecl'].get('name') not in ('u', 'du'):
+            raise nvwp.Unsupported('make_smax: coefficient access on something that is not the parameter u or du')
+        return u['referencedDecl']['name'] + 'vec'
+
+    def h_at(wp, n, args, callee):
+        i = wp.ev(args[1])
+        wp.oblige(f'coefficient index of {vec(args[0])} in bounds', f'(and (<= 0 {i.t}) (< {i.t} n))', n)
+        return V(f'({vec(args[0])} {i.t})', 'Real', 'double')
+
+    def h_min(wp, n, args, callee):
+        a, b = wp.ev(args[0]), wp.ev(args[1])
+        return V(f'(ite (< {b.t} {a.t}) {b.t} {a.t})', 'Real', 'double')
+
+    def h_max(wp, n, args, callee):
+        a, b = wp.ev(args[0]), wp.ev(args[1])
+        return V(f'(ite (< {a.t} {b.t}) {b.t} {a.t})', 'Real', 'double')
+
+    def inv(wp):
+        i, smax = wp.env['i'].t, wp.env['smax'].t
+        return [('0 <= i <= size', f'(and (<= 0 {i}) (<= {i} n) (= {wp.env["size"].t} n))'), ('smax > 0', f'(> {smax} 0.0)'),
+                ('u_g + smax * du_g >= 0 for every index g already visited', f'(=> (and (<= 0 g) (< g {i})) (>= (+ (uvec g) (* {smax} (duvec g))) 0.0))')]
+    inv.decreases = lambda wp, env: f'(- n {env["i"].t})'
+
+    wp = IdEnvWP('make_smax_real', real=True,
+                 calls=[(r'^operator\(\)\|', h_at), (r'^min\|const double &', h_min), (r'^max\|const double &', h_max),
+                        (r'^max\|double \(\) noexcept', lambda wp, n, args, callee: V('dblmax', 'Real', 'double'))],
+                 members=[(r'^size\|', lambda wp, n, args, obj: V('n', 'Int', 'long'))], invariants={1: inv})
+    wp.decls += ['(declare-fun uvec (Int) Real)', '(declare-fun duvec (Int) Real)', '(declare-const n Int)', '(declare-const g Int)',
+                 '(declare-const dblmax Real)']
+    wp.assume('(and (<= 0 n) (<= n 4611686018427387904))')                                 # a vector size
+    wp.assume('(>= dblmax 1.0)')                                                           # numeric_limits<double>::max()
+    wp.assume('(forall ((k Int)) (=> (and (<= 0 k) (< k n)) (> (uvec k) 0.0)))')           # u > 0: the interior-point invariant
+    wp.post = lambda wp, r: [('0 < result <= 1', f'(and (< 0.0 {r.t}) (<= {r.t} 1.0))'),
+                             ('u_g + result * du_g >= 0 at every index g', f'(=> (and (<= 0 g) (< g n)) (>= (+ (uvec g) (* {r.t} (duvec g))) 0.0))')]
+    wp.run(fn, astload.resolve_tu(TU))
+    return wp.vcs('make_smax_real', astload.resolve_tu(TU), 'make_smax over the reals') + [reach_vc(wp, 'make_smax_real', astload.resolve_tu(TU))]
+
+
 def build(tier):
     feas = lambda: Fn('program_feasible', TU, 'feasible', flt='program_t::feasible', self_struct='struct nv_program', **COMMON)
     done = lambda: Fn('solver_done', TU, 'done', flt='solver_t::done', **COMMON)
@@ -141,7 +189,7 @@ def build(tier):
         Target('solve_without_inequality', [swo(), ctor()], H),
     ]
     return {
-        'targets': targets, 'vcs': [],
+        'targets': targets, 'vcs': smax_real_vcs(),
         'decided': [
             'solver_t::done: status\' == converged <=> program.feasible(state) && eta < eps && no residual norm (|rdual|, |rprim|) is >= eps; '
             'otherwise unbounded if feasible, unfeasible if not; nothing but m_status is written (for norms that are not NaN this is literally '
@@ -159,13 +207,15 @@ def build(tier):
             'solver_state_t(n, m, p): status max_iters, zero iterations, all scalars NaN / 0 as declared (default member initialisers read from state.h)',
             '::make_smax: every coefficient read in bounds (given its own assert u.size() == du.size()), loop terminates, result <= 1 and never NaN, '
             'result >= 0 when every coefficient of u is > 0',
+            '::make_smax over the reals (SMT): for u > 0 componentwise the result is in (0, 1] and u_g + result * du_g >= 0 at every index g; '
+            'coefficient reads in bounds; loop variant',
         ],
         'not_decided': [
             'all numeric tolerances of the property (1e-6 (1+|b|), objective gap vs f*), correctness of infeasible / unbounded detection, '
             'invariance under restatement: they depend on LDLT numerics',
             'that the residual fields were computed at the returned m_x: deliberately not demanded (on the max_lsearch_iters exit of stage 2 they '
             'may belong to the last trial point; the property\'s 100x allowance covers that)',
-            'make_smax over the reals: result in (0, 1] and u_i + smax du_i >= 0 (IEEE: the quotient can underflow to 0)',
+            'make_smax in IEEE arithmetic: result > 0 (the quotient -u_i / du_i can underflow to +0; proved over the reals only)',
             'the size precondition of make_smax at its call site in solve_with_inequality (u and du both have m coefficients) needs Eigen size '
             'reasoning; there make_smax is an arbitrary side-effect-free double',
             'program_t::update / program_t::solve / solver_state_t::update / solver_state_t::residual bodies (Eigen algebra): havoc of what they assign',
@@ -184,6 +234,8 @@ def build(tier):
             '0 <= epsilon, epsilon0 <= 1e-3, 10 <= max_iters, max_lsearch_iters <= 1000',
             'IEEE facts, everything else about double + - * / uninterpreted: a * b for 0 <= b <= 1 lies between 0 and a (NaN stays NaN, +-inf times '
             'b > 0 stays), -a flips the sign exactly, a / b for a, b < 0 is >= 0 or NaN',
+            'make_smax_real VCs: IEEE double treated as a real; precondition u > 0 componentwise (the interior-point invariant, numeric, not '
+            'established here for the caller)',
             'logger calls have no effect on the modelled state (dropped, including the program.feasible(state) evaluated only for logging)',
             'solver_status enumerators are pairwise distinct (values copied from include/nano/solver/status.h)',
         ],
